@@ -46,8 +46,24 @@ def one_case(case):
                 return res
             steps = [{'do': 'tls', 'alpn': o, 'connect_tries': 40} for o in case['offers']]
             steps += [{'do': 'tls', 'alpn': o, 'connect_tries': 40} for o in case['foreign']]
+            # some instances see many refused clients and are then asked again by a validating one
+            again = case.get('refusals_then_valid', 0)
+            if again:
+                steps += [{'do': 'tls', 'alpn': case['foreign'][0], 'connect_tries': 5} for _ in range(again)]
+                steps += [{'do': 'tls', 'alpn': case['offers'][0], 'connect_tries': 5}]
             out = C.vtool('alpnclient', [{'target': listen, 'sni': case['want_name'], 'steps': steps, 'seed': case['i']}])
             st = out[0]['steps']
+            if again:
+                extra = st[len(case['offers']) + len(case['foreign']):]
+                st = st[:len(case['offers']) + len(case['foreign'])]
+                for s in extra[:-1]:
+                    if s.get('connected') and (s.get('result') or {}).get('handshake_ok'):
+                        res['problems'].append(('foreign-accepted', 'client offering only %r completed a handshake' % (case['foreign'][0],)))
+                        break
+                    res['refused'] += 1
+                res['observed'] += 1
+                for p in T.judge_valid(extra[-1], case['want_name'], case['digest_hex'], case['key_type'], case['digest']):
+                    res['problems'].append(('valid-offer', 'offer %r after %d refused clients: %s' % (case['offers'][0], again, p)))
             for s, o in zip(st[:len(case['offers'])], case['offers']):
                 pb = T.judge_valid(s, case['want_name'], case['digest_hex'], case['key_type'], case['digest'])
                 res['observed'] += 1
@@ -81,6 +97,9 @@ def gen_cases(tier):
         if kt == 'rsa4096' and i >= len(combos) and r.random() < 0.8:
             kt = r.choice(['ecdsa_p256', 'ecdsa_p384', 'ed25519'])
         domain = T.gen_domain(r)
+        if i % 13 == 7:
+            # names near the length limits (63 / 253 octets in A-label form, several hundred bytes as UTF-8 U-labels), over every input channel
+            domain = T.gen_long_domain(r, idn=(i % 26 == 7) or r.random() < 0.6)
         offers, foreign = alpn_offers(r)
         # with the current tacd any refused handshake may end the process (C17);
         # one foreign-only offer per instance, placed last, keeps C16 independent of that
@@ -91,6 +110,7 @@ def gen_cases(tier):
             'listener': 'unix' if i % 2 else 'tcp',
             'domain_via': vias[(i // 2) % 3], 'ext_via': vias[(i // 6) % 3],
             'offers': offers, 'foreign': [foreign[i % len(foreign)]],
+            'refusals_then_valid': r.choice([40, 70, 130]) if i % 10 == 3 else 0,
         })
     return cases
 
@@ -110,6 +130,10 @@ def run(tier):
                               'idn' if not c['domain'].isascii() else ('mixed' if c['domain'] != c['domain'].lower() else 'ascii')))
         if not c['domain'].isascii():
             chk.count('idn_domains')
+        if len(c['domain'].encode('utf-8')) > 255:
+            chk.count('domains_longer_than_255_utf8_bytes_via_' + c['domain_via'])
+        if len(c['want_name']) > 200:
+            chk.count('alabel_names_longer_than_200')
         if not res['problems']:
             chk.sample({k: c[k] for k in ('domain', 'want_name', 'key_type', 'digest', 'listener', 'domain_via', 'ext_via', 'digest_hex')})
         for kind, p in res['problems']:
